@@ -98,6 +98,11 @@ def main_lemma(run):
                         groups = E.ps.get("groups", [])
                         rel = []
                         if grouped:
+                            # a group size was given: the range must be taken over groups of that size (one step per group)
+                            run.add(f"C02/groups-formed-when-a-group-size-is-given[{tag}]/path{pi}", r.hyps, z3.BoolVal(len(groups) > 0), "property", inst,
+                                    replay=lambda m_, sd, i=dict(inst): replay(m_, sd, i))
+                            if not groups:
+                                continue
                             m = None
                             for g in groups:
                                 f, m = CG.group_relation(E, g, ids)
@@ -310,7 +315,7 @@ def build(run):
                 f"{QBITS}::QBitsDequantizer.forward", f"{QBITS}::QBitsTensor.create", f"{QBITS}::QBitsTensor.__init__", f"{QBITS}::QBitsTensor.__new__",
                 CG.KEY_GROUP, CG.KEY_UNGROUP):
         run.under_contract(E0, key)
-    for part in (lambda r: CG.verify(r, lambda: r.engine(), "C02/group-contract"), math_lemmas, main_lemma, idempotence_F, zeropoint_F):
+    for part in (lambda r: CG.verify(r, lambda: r.engine(), "C02/group-contract", level_inv="property", replay_for=replay_group), math_lemmas, main_lemma, idempotence_F, zeropoint_F):
         try:
             part(run)
         except Unsupported as u:
@@ -344,7 +349,9 @@ def native_half_step(t, qname, axis, group_size):
     step = (hi - lo) / N
     eps = torch.finfo(t.dtype).eps
     err = (dg - mg).abs()
-    bad = ~(err <= step / 2 + 8 * eps * (mg.abs() + hi - lo) + 1e-30) | ~torch.isfinite(dg)
+    # float rounding: relative (8 eps) plus absolute (a few subnormal steps of the dtype, where the step itself underflows)
+    den = float(torch.finfo(t.dtype).tiny) * eps
+    bad = ~(err <= step / 2 + 8 * eps * (mg.abs() + hi - lo) + 8 * den) | ~torch.isfinite(dg)
     if bad.any():
         ix = bad.nonzero()[0].tolist()
         return {"what": "error exceeds half a step of the group", "group_index": ix, "x": mg[tuple(ix)].item(), "deq": dg[tuple(ix)].item(),
@@ -385,6 +392,27 @@ def replay(model, seed, inst):
                         r.update({"shape": shape, "axis": axis, "group_size": gs, "kind": kind, "dtype": str(dt), "qtype": qname,
                                   "input": t.to(dt).tolist()})
                         return r
+    return None
+
+
+def replay_group(model, seed, inst):
+    """ungroup(group(x)) == x on the real functions, all admissible group sizes of some small shapes of the rank."""
+    import torch
+    from optimum.quanto.tensor.qbits.group import group, ungroup
+
+    rank, axis = inst["rank"], inst["axis"]
+    shapes = {1: [[8], [6]], 2: [[4, 8], [3, 6], [8, 4]], 3: [[2, 4, 4], [3, 2, 6], [8, 4, 16]], 4: [[2, 2, 2, 4], [4, 3, 2, 2]]}[rank]
+    for shape in shapes:
+        x = torch.arange(int(torch.tensor(shape).prod())).reshape(shape).float()
+        k = axis % rank
+        n = x.numel() // shape[k]
+        for gs in [g for g in range(1, n + 1) if n % g == 0]:
+            try:
+                u = ungroup(group(x, axis, gs), axis, x.shape)
+            except Exception as e:
+                return {"what": f"group/ungroup raises {type(e).__name__}: {str(e)[:120]}", "shape": shape, "axis": axis, "group_size": gs}
+            if tuple(u.shape) != tuple(x.shape) or not torch.equal(u, x):
+                return {"what": "ungroup(group(x)) != x", "shape": shape, "axis": axis, "group_size": gs}
     return None
 
 
@@ -431,7 +459,9 @@ def replay_file(path):
     import json
     rec = json.load(open(path))
     inst = rec["instance"]
-    if inst.get("algebra") == "F":
+    if inst.get("lemma") == "group/ungroup contract":
+        r = replay_group(rec.get("model") or {}, rec.get("seed", 0), inst)
+    elif inst.get("algebra") == "F":
         r = replay_idem(rec.get("model") or {}, rec.get("seed", 0), inst["bits"], inst["dtype"])
     else:
         r = replay(rec.get("model") or {}, rec.get("seed", 0), inst)
